@@ -2,10 +2,10 @@
 package main
 
 import (
-	"runtime"
 	"context"
 	"fmt"
 	"math/rand"
+	"runtime"
 	"strings"
 	"sync"
 	"time"
